@@ -1,0 +1,66 @@
+//go:build verif
+
+package vgirpc
+
+import "net/http/httptest"
+
+// Verification hooks for property C17 (response compression negotiation).
+// Add-only; compiled in only with -tags verif.
+
+func init() {
+	verifConstProviders = append(verifConstProviders, func() []VerifConst {
+		// The advertisement strings are rendered by real servers, never copied.
+		on := NewHttpServer(NewServer())
+		off := NewHttpServer(NewServer())
+		off.applyCompressionLevel(0)
+		return []VerifConst{
+			verifList("c17_supported_encodings", append([]string(nil), supportedEncodings...)),
+			verifBytes("c17_identity", identityEncoding),
+			verifNum("c17_default_level", DefaultCompressionLevel),
+			verifBytes("c17_advert_default", on.supportedEncodingsValue),
+			verifBytes("c17_advert_disabled", off.supportedEncodingsValue),
+			verifBytes("c17_arrow_content_type", arrowContentType),
+			verifBytes("c17_h_accept", acceptEncodingHeader),
+			verifBytes("c17_h_custom_accept", customAcceptEncodingHeader),
+			verifBytes("c17_h_content_encoding", contentEncodingHeader),
+			verifBytes("c17_h_custom_content_encoding", customContentEncodingHeader),
+			verifBytes("c17_h_supported_encodings", supportedEncodingsHeader),
+		}
+	})
+}
+
+// VerifParseAcceptEncoding exposes parseAcceptEncoding.
+func VerifParseAcceptEncoding(header string) []string { return parseAcceptEncoding(header) }
+
+// VerifChooseResponseEncoding exposes chooseResponseEncoding.
+func VerifChooseResponseEncoding(custom, standard string, producible []string) (string, bool) {
+	return chooseResponseEncoding(custom, standard, producible)
+}
+
+// VerifProducibleResponseEncodings exposes the producibility predicate of a
+// configured server.
+func VerifProducibleResponseEncodings(h *HttpServer) []string {
+	return append([]string(nil), h.producibleResponseEncodings()...)
+}
+
+// VerifCompressFinish drives compressResponseWriter directly: a handler that
+// sets contentType (when non-empty), writes status (when non-zero) and body,
+// behind a writer negotiated to (encoding, useCustomHeader) at the given level.
+func VerifCompressFinish(level int, encoding string, useCustomHeader bool, contentType string, status int, body []byte) *httptest.ResponseRecorder {
+	rec := httptest.NewRecorder()
+	cw := &compressResponseWriter{ResponseWriter: rec, encoderLevel: level, encoding: encoding, useCustomHeader: useCustomHeader}
+	if contentType != "" {
+		cw.Header().Set("Content-Type", contentType)
+	}
+	if status != 0 {
+		cw.WriteHeader(status)
+	}
+	if len(body) > 0 {
+		// two writes: the buffer must concatenate
+		half := len(body) / 2
+		_, _ = cw.Write(body[:half])
+		_, _ = cw.Write(body[half:])
+	}
+	cw.finish()
+	return rec
+}
